@@ -4,10 +4,23 @@ import json, os, subprocess
 VERIF = os.path.dirname(os.path.dirname(os.path.abspath(__file__)))
 
 # property -> (technique, level text, level note, design ref)
+SAN = "gcc AddressSanitizer+UBSan+_GLIBCXX_ASSERTIONS build of the real library (hooks on); many short child processes; every abort/foreign exception/hang attributed to its journalled case"
+TRUST = "Trusted: the harness's reference model/oracle code (harness/%s.cpp), gcc sanitizers and libstdc++ assertions, the seeded generator. Nothing is claimed beyond the generated input/history space stated in the evidence 'rule' and 'assumptions'."
 CHECKS = {
- "C20": ("reference-model monitor (bitset over the integer universe) executed after every operation of exhaustive and random histories, under ASan+UBSan+hardened STL",
+ "C02": ("shadow-model monitor of ParameterList / AbstractParametrizable histories (state compared after every call), atomicity probes at every reject position; " + SAN,
+         "Random histories over up to 3 live lists/owners (add/include/share/set*/match*/delete/sub-list/copy/namespace) are replayed on a shadow model of (name,value,constraint,object identity); after every call the complete state and every lookup of every live list is compared, bulk value updates that raise must leave all lists bit-identical, shared vs cloned identity is probed by write-through. Held = no divergence / sanitizer report on the executions counted in the evidence.",
+         "6/C02"),
+ "C09": ("invariant monitor after every step of construction/update/restriction histories of every distribution family, against a freshly built parent and closed forms; " + SAN,
+         "All families x class counts 1..32 x 3 schemes x median on/off x parameters over 3 decades, with histories of setParameterValue/setNumberOfCategories/setMedian/restrictToConstraint/clone/assign, and random compound trees (simple, constant, invariant-mixed, mixture). After every step every clause of the statement is audited (count, normalisation, ordering, interval membership, class mass vs parent cdf, mean preservation, cdf/quantile/expectation consistency, lookups, cumulative queries). Two recorded findings are replayed separately.",
+         "6/C09"),
+ "C13": ("differential monitor of the three HMM algorithms against long-double path enumeration / scaled forward-backward references, history-independence probes; " + SAN,
+         "Harness-supplied alphabet, emissions (with parameters) and transition doubles with exactly stationary start; 1..5 states, lengths up to 12 (enumeration) and 5000 (scaled long-double reference), sparse/zero transitions, emissions down to 1e-200, every break-point subset and chunk size; log-likelihood, posteriors, per-site likelihoods, first/second derivatives (vs jets checked against finite differences) compared for the three algorithms; the same queries are re-issued in every order interleaved with parameter updates; built-in transition matrices checked for row sums and stationarity in every query order.",
+         "6/C13"),
+ "C16": ("coverage-guided fuzzing (libFuzzer, clang ASan+UBSan) plus deterministic replay of seeds, seeded structural mutants and the accumulated corpus through the gcc ASan+UBSan+hardened-STL build, outcome classifier (returned / bpp::Exception / foreign exception / abort / hang / allocation ceiling)",
+         "Ten entry-point groups (text utilities, tokenisers, keyval, options+variables+typed getters+wildcards, path helpers, table read/edit/write, distribution / interval / formula / vector descriptions); the first input bytes select the entry point and every option. Quick: all committed seeds, 37k seeded mutant cases (8 inputs each), the stored corpus, and 60k libFuzzer executions per group; thorough: 1.4M mutant cases and 9M executions per group. Any outcome other than return or bpp::Exception is a violation; time-outs and RSS/allocation ceilings stand for non-termination/unbounded allocation.",
+         "6/C16"),
+ "C20": ("reference-model monitor (bitset over the integer universe) executed after every operation of exhaustive and random histories; " + SAN,
          "Every operation sequence up to length 3 over the 0..6 universe (thorough; length 2 + sampled third operation in quick) and 30k..1.5M random histories of length <=12 over 0..24, for int/unsigned/double coordinates, are executed on the real MultiRange/RangeSet next to a bitset model; after each operation disjointness, order, union, total length, deep-copy independence and all Range predicates are compared. Held = no divergence and no sanitizer report on those executions.",
-         "Trusted: the 30-line bitset/interval model in harness/C20.cpp, gcc ASan/UBSan. Integral end points only; nothing is claimed beyond the enumerated universe.",
          "6/C20"),
 }
 NOT_YET = "check not built yet in this snapshot of /verif (work in progress; see DESIGN.md section 6)"
@@ -18,7 +31,8 @@ def main():
     checks, na = [], []
     for pid in props:
         if pid in CHECKS and os.path.exists(os.path.join(VERIF, "harness", pid + ".cpp")):
-            tech, text, note, ref = CHECKS[pid]
+            tech, text, ref = CHECKS[pid]
+            note = TRUST % pid
             checks.append({
                 "property_id": pid,
                 "quick_cmd": "bin/check %s quick" % pid,
